@@ -612,36 +612,66 @@ func H_readd_midbatch() {
 	w := verifNewInotifyN(0, 0, 0)
 	verifSetupTable(w, 2)
 	verifK.nIno = 3
-	verifAssume(verifK.marks[1].state == kDying)
+	e := verifTable[1] // "/t/a" has a watched parent, "/u/b"-like paths are covered by the other population
+	ei := 1
+	if verifParam("TABLEB") != 0 {
+		e, ei = verifTable[0], 0
+	}
+	verifAssume(verifK.marks[ei].state == kDying)
+	withSelf := verifBool("delete-self-in-batch") // unlink of the last link: IN_ATTRIB, IN_DELETE_SELF, IN_IGNORED
+	K := 2
+	if withSelf {
+		K = 3
+	}
 	n := verifInt("n")
-	verifAssume(n == 32)
+	verifAssume(n == 16*K)
 	verifK.script[0] = verifRead{n: n}
 	verifK.nScript = 1
 	verifK.blockAfter = true
-	e := verifTable[1] // "/t/a" has a watched parent, "/u/b"-like paths are covered by the other population
-	if verifParam("TABLEB") != 0 {
-		e = verifTable[0]
-	}
 	verifFillBuffer = func(i int, b []byte, n int) {
 		if i == 0 {
-			verifConstrainRecords(b, n, 2, 16, false)
+			verifConstrainRecords(b, n, K, 16, false)
 			verifAssume(verifRecs[0].mask == unix.IN_ATTRIB && uint32(verifRecs[0].wd) == e.wd && verifRecs[0].ln == 0)
-			verifAssume(verifRecs[1].mask == unix.IN_IGNORED && uint32(verifRecs[1].wd) == e.wd && verifRecs[1].ln == 0)
+			if withSelf {
+				verifAssume(verifRecs[1].mask == unix.IN_DELETE_SELF && uint32(verifRecs[1].wd) == e.wd && verifRecs[1].ln == 0)
+			}
+			verifAssume(verifRecs[K-1].mask == unix.IN_IGNORED && uint32(verifRecs[K-1].wd) == e.wd && verifRecs[K-1].ln == 0)
 		}
 	}
 	go w.readEvents()
 	verifQuiesce() // the reader is parked offering the first event (Chmod: the file was unlinked)
+	late := withSelf && verifBool("readd-after-delete-self")
+	var nwd uint32
 	verifK.addResolve = 2
-	verifAssert(w.Add(e.path) == nil, "re-Add of the re-created path while the batch is only half handled")
-	nwd := uint32(verifK.nextWd)
+	if !late {
+		verifAssert(w.Add(e.path) == nil, "re-Add of the re-created path while the batch is only half handled")
+		nwd = uint32(verifK.nextWd)
+	}
 	ev := <-w.Events
 	verifAssert(ev.Name == e.path && ev.Op == Chmod, "first event of the batch")
-	verifQuiesce() // the reader handles the old watch's IN_IGNORED
-	verifAssert(verifInList(w.WatchList(), e.path), "the re-added path stays listed after the old watch's IN_IGNORED")
+	verifQuiesce() // the reader handles the rest of the batch as far as it can
+	if late {
+		// the old watch has ended (IN_DELETE_SELF handled; the reader may be parked offering its
+		// Remove); the path is re-created and added again before the old watch's IN_IGNORED is handled
+		verifAssert(w.Add(e.path) == nil, "re-Add of the re-created path after its old watch ended")
+		nwd = uint32(verifK.nextWd)
+		verifReach("readd-after-delete-self")
+	}
+	for i := 0; i < 2; i++ {
+		select {
+		case ev := <-w.Events:
+			verifAssert(ev.Name == e.path && ev.Op&Remove != 0, "only the old file's Remove can follow")
+		default:
+		}
+		verifQuiesce()
+	}
+	verifAssert(verifInList(w.WatchList(), e.path), "the re-added path stays listed after the old watch's IN_DELETE_SELF/IN_IGNORED")
 	w.mu.Lock()
 	ww := w.watches.wd[nwd]
+	pwd, listed := w.watches.path[e.path]
 	w.mu.Unlock()
-	verifAssert(ww != nil && ww.path == e.path, "the new watch stays in place")
+	verifAssert(ww != nil && ww.path == e.path && listed && pwd == nwd, "the new watch stays in place, in both tables")
+	verifAssert(w.Remove(e.path) == nil, "Remove of the re-added path succeeds")
 	verifAssert(w.Close() == nil, "Close")
 	verifReach("readd-midbatch")
 }
